@@ -227,6 +227,22 @@ func extraC03(r *Run) {
 			}
 			var h1, h2, t1, t2 metadata.MD // duplicated call options: every target is filled
 			opts := []grpc.CallOption{grpc.Header(&h1), grpc.Header(&h2), grpc.Trailer(&t1), grpc.Trailer(&t2)}
+			// per-RPC credentials whose keys overlap the caller's: a transport (or credential) may add
+			// values, the caller's own stay, in order, in front
+			var credMD map[string]string
+			credsDesc := "-"
+			if (i/4)%3 == 1 {
+				cm := map[string]string{"cred-own": "c0"}
+				for _, k := range rkeys {
+					if !strings.HasSuffix(k, "-bin") {
+						cm[k] = "from-credential"
+						break
+					}
+				}
+				credMD = cm
+				credsDesc = fmt.Sprint(cm)
+				opts = append(opts, grpc.PerRPCCredentials(&testCreds{md: cm}))
+			}
 			var callErr error
 			var strHdr, strTlr metadata.MD
 			isStream := kind != "unary"
@@ -264,7 +280,7 @@ func extraC03(r *Run) {
 			}
 			stop()
 			c := map[string]interface{}{"transport": tp.name, "kind": kind, "handler_fails": fail, "edge_whitespace": edge,
-				"request_md": mdHex(reqMD), "headers": mdHex(hdrMD), "trailers": mdHex(tlrMD)}
+				"request_md": mdHex(reqMD), "headers": mdHex(hdrMD), "trailers": mdHex(tlrMD), "per_rpc_credentials": credsDesc}
 			r.Eval(fmt.Sprint("md-e2e", tp.name, kind, i), len(reqMD)+len(hdrMD)+len(tlrMD) > 0)
 			r.Count("md-e2e:" + tp.name + ":" + kind)
 			r.TracesOnImpl++
@@ -277,6 +293,12 @@ func extraC03(r *Run) {
 				suffix = "/edge-whitespace"
 			}
 			smu.Lock()
+			// what the credential contributed (C13's business) is set aside: one trailing value per credential key
+			for k, v := range credMD {
+				if vs := seen[k]; len(vs) > 0 && vs[len(vs)-1] == v {
+					seen[k] = vs[:len(vs)-1]
+				}
+			}
 			if ok, why := subsetMD(reqMD, seen); !ok {
 				r.Violate(tp.name+"/metadata/request-altered"+suffix, "every key/value pair the caller attaches as outgoing metadata is visible to the handler, multi-valued keys keeping all values in order and '-bin' values byte-exact", why, c, mdHex(seen))
 			}
@@ -465,9 +487,98 @@ func unaryCancelAfterReplyHeaders(r *Run) {
 	}
 }
 
+// cancelReachesIdleHandlerOverTheWire (C04): a real net/http server and transport on loopback. The
+// caller of a single-request method half-closes a little after the message (a separate write), the
+// handler sits idle on its context, the caller cancels: the handler's context must end too.
+func cancelReachesIdleHandlerOverTheWire(r *Run) {
+	for i := 0; i < r.Budget(8, 48); i++ {
+		// bidi-one: the handler takes one message and then sits idle without having read the request to its end
+		kind := []string{"sstream", "bidi-drain", "sstream", "bidi-one"}[i%4]
+		gap := []time.Duration{15 * time.Millisecond, 0, 40 * time.Millisecond}[(i/4)%3]
+		started := make(chan struct{}, 1)
+		ended := make(chan time.Time, 1)
+		wait := func(ctx context.Context) error {
+			started <- struct{}{}
+			select {
+			case <-ctx.Done():
+				ended <- time.Now()
+				return ctx.Err()
+			case <-time.After(4 * time.Second):
+				return nil
+			}
+		}
+		svr := &scriptServer{}
+		svr.sstream = func(req *Msg, ss grpchantesting.TestService_ServerStreamServer) error { return wait(ss.Context()) }
+		svr.bidi = func(bs grpchantesting.TestService_BidiStreamServer) error {
+			if _, err := bs.Recv(); err != nil {
+				return err
+			}
+			for kind == "bidi-drain" {
+				if _, err := bs.Recv(); err != nil {
+					break
+				}
+			}
+			return wait(bs.Context())
+		}
+		svr.unary = func(ctx context.Context, req *Msg) (*Msg, error) { return &Msg{}, wait(ctx) }
+		hs := httpgrpc.NewServer()
+		grpchantesting.RegisterTestServiceServer(hs, svr)
+		ts := httptest.NewServer(hs)
+		u, _ := url.Parse(ts.URL)
+		tr := &http.Transport{}
+		ch := &httpgrpc.Channel{Transport: tr, BaseURL: u}
+		desc, name := descSStream, mSStream
+		switch kind {
+		case "bidi-one", "bidi-drain":
+			desc, name = descBidi, mBidi
+		}
+		ctx, cancel := context.WithCancel(context.Background())
+		res := "not-started"
+		cs, err := ch.NewStream(ctx, desc, name)
+		if err == nil {
+			cs.SendMsg(&Msg{Count: 1, Payload: []byte("x")})
+			time.Sleep(gap)
+			cs.CloseSend()
+			select {
+			case <-started:
+				time.Sleep(10 * time.Millisecond)
+				t0 := time.Now()
+				cancel()
+				select {
+				case t1 := <-ended:
+					res = "cancelled"
+					_ = t1.Sub(t0)
+				case <-time.After(2500 * time.Millisecond):
+					res = "handler-context-still-live"
+				}
+			case <-time.After(3 * time.Second):
+			}
+		}
+		cancel()
+		tr.CloseIdleConnections()
+		ts.CloseClientConnections()
+		ts.Close()
+		r.Eval(fmt.Sprint("wire-cancel-idle-handler", kind, gap, i), true)
+		r.Count("wire-cancel-idle-handler:" + kind)
+		r.TracesOnImpl++
+		if res == "not-started" {
+			r.Count("wire-cancel-idle-handler:handler-not-started")
+		} else if res != "cancelled" {
+			sig := "httpnet/stream/handler-ctx-not-cancelled"
+			if kind == "bidi-one" {
+				sig += "/bidi-request-not-read-to-end"
+			}
+			r.Violate(sig, "when the caller's context is cancelled … the handler's context is cancelled as well",
+				sprintf("%s over a real HTTP connection: message, half-close %v later, handler idle on its context, caller cancels: %s", kind, gap, res),
+				map[string]interface{}{"transport": "httpnet", "kind": kind, "half_close_after": gap.String(), "script": "NewStream; SendMsg; sleep; CloseSend; (handler waits on ctx.Done) cancel"}, res)
+		}
+	}
+}
+
 func extraC04(r *Run) {
 	unaryCancelAfterReplyHeaders(r)
 	serverSideDeadline(r)
+	cancelReachesIdleHandlerOverTheWire(r)
 	for _, tp := range bothTransports() {
 		for i := 0; i < r.Budget(3, 20); i++ {
 			release := make(chan struct{})
